@@ -412,6 +412,9 @@ def search():
         bad = fn()
         if bad:
             return {"confirmed": True, "input": {"files": files}, "actual": bad, "expected": exp, "how": f"bounded search on the real pipeline: {fn.__name__}"}
+    bad = inherited_generics(("bindings",))
+    if bad:
+        return {"confirmed": True, "input": {"source": INHERITED_GENERIC}, "actual": bad, "expected": "each type's generic resolves among that type's bound procedures", "how": "bounded search on the real pipeline: a generic binding inherited by three extensions, one of which overrides the specific"}
     bad = renamed_away()
     if bad:
         return {"confirmed": True, "input": {"files": RENAMED}, "actual": bad, "expected": "a renamed entity is visible under its local name only; the scope's own declarations keep their names",
@@ -435,3 +438,36 @@ def search():
 
 def count_cases():
     return sum(1 for _ in cases()) + 5
+
+
+INHERITED_GENERIC = ("module m\n  implicit none\n  type :: a\n  contains\n    procedure :: s => base_s\n    generic :: gen => s\n      !! gendocw1 gendocw2\n  end type a\n"
+                     "  type, extends(a) :: b\n  contains\n    procedure :: s => b_s\n  end type b\n  type, extends(a) :: c\n  end type c\n  type, extends(a) :: d\n  end type d\ncontains\n"
+                     "  subroutine base_s(self)\n    class(a) :: self\n  end subroutine base_s\n  subroutine b_s(self)\n    class(b) :: self\n  end subroutine b_s\nend module m\n")
+
+
+def inherited_generics(what=("bindings", "idents", "docs")):
+    """a generic binding that extending types inherit: in every type it dispatches to *that type's* specific binding (the parent's own generic keeps the parent's); the identifiers of
+    the inherited copies are handed out when the types are correlated, in that order, not when somebody first asks; and each copy shows the documentation of the binding"""
+    from harness import loader
+    proj = realrun.build_project({"src/m.f90": INHERITED_GENERIC}, display=["public", "private", "protected"])
+    ty = {t.name: t for t in proj.modules[0].types}
+    g = lambda t: [bp for bp in ty[t].boundprocs if bp.name == "gen"][0]
+    bad = []
+    if "bindings" in what:
+        got = {t: [(getattr(x, "name", x), getattr(getattr(x, "parent", None), "name", None)) for x in g(t).bindings] for t in "abcd"}
+        want = {"a": [("s", "a")], "b": [("s", "b")], "c": [("s", "a")], "d": [("s", "a")]}
+        if got != want:
+            bad.append(f"generic `gen` dispatches to (binding, declaring type) {got}, expected {want}: b overrides s, the others inherit it")
+    if "idents" in what:
+        got = [(t, g(t).ident) for t in ("d", "c", "b", "a")]        # asked in reverse: an identifier that is only allocated on demand would follow this order
+        want = [("d", "gen~4"), ("c", "gen~3"), ("b", "gen~2"), ("a", "gen")]
+        if got != want:
+            bad.append(f"identifiers of the inherited copies, asked for in reverse order: {got}; allocated at correlation time they are {want}")
+    if "docs" in what:
+        mdm = loader.import_repo("ford._markdown")
+        proj.markdown(mdm.MetaMarkdown(aliases={}, project=proj))
+        import re
+        got = {t: re.findall(r"gendocw\d", str(getattr(g(t), "doc", ""))) for t in "abcd"}
+        if any(v != ["gendocw1", "gendocw2"] for v in got.values()):
+            bad.append(f"rendered documentation of `gen` per type: {got}; every type that has the binding shows its comment")
+    return bad
